@@ -227,13 +227,20 @@ impl<S: GetSeeds + Clone> SignerOf<S, HProg> for ViaAccess {
     }
 }
 
-fn candidate<S, P, G>(s: &S, key: [u8; 32], mode: i128, bump: u8, ctx_pid: &'static Pubkey, spid: &Pubkey, out: &mut Vec<i128>)
+fn candidate<S, P, G>(s: &S, key: [u8; 32], mode: i128, bump: u8, ctx_pid: &'static Pubkey, spid: &Pubkey, cls: i128, out: &mut Vec<i128>)
 where
     S: Fam,
     P: SeedProgram + 'static,
     G: SignerOf<S, P>,
 {
-    let na = NativeAccount::new(key, [0; 32], 1, &[], false, false, false);
+    // state the decision must not depend on
+    let na = match cls {
+        1 => NativeAccount::new(key, [0; 32], 0, &[], false, false, false),
+        2 => NativeAccount::new(key, PROG_ID.to_bytes(), 2_000_000, &[7u8; 40], false, true, false),
+        3 => NativeAccount::new(key, [0; 32], u64::MAX, &[], true, true, false),
+        4 => NativeAccount::new(key, [0xEE; 32], 0, &[0xFFu8; 8], true, false, false),
+        _ => NativeAccount::new(key, [0; 32], 1, &[], false, false, false),
+    };
     let info = na.info();
     let r = guarded(|| -> Result<Vec<i128>> {
         let mut ctx = Context::new(ctx_pid);
@@ -292,7 +299,8 @@ fn run<S: Fam>(c: &[i128]) -> Vec<i128> {
     if cpid != PROG_ID.to_bytes() {
         return vec![-2];
     }
-    let (Some(pmode), Some(_trailing), Some(hasc)) = (cur.next(), cur.next(), cur.next()) else { return bad };
+    let (Some(pmode), Some(trailing), Some(hasc)) = (cur.next(), cur.next(), cur.next()) else { return bad };
+    let cls = if trailing > 0 { (trailing - 1) / 2 } else { 0 };
     if hasc != 0 {
         let Some(clen) = cur.next() else { return bad };
         if cur.take(clen as usize).is_none() {
@@ -330,9 +338,9 @@ fn run<S: Fam>(c: &[i128]) -> Vec<i128> {
         let Some(key) = key32(&mut cur) else { return bad };
         let (Some(mode), Some(bump)) = (cur.next(), cur.next()) else { return bad };
         if pmode != 0 {
-            candidate::<S, HProg, ViaAccess>(&s, key, mode, bump as u8, ctx_pid, &spid, &mut out);
+            candidate::<S, HProg, ViaAccess>(&s, key, mode, bump as u8, ctx_pid, &spid, cls, &mut out);
         } else {
-            candidate::<S, CurrentProgram, ViaSignedAccount>(&s, key, mode, bump as u8, ctx_pid, &spid, &mut out);
+            candidate::<S, CurrentProgram, ViaSignedAccount>(&s, key, mode, bump as u8, ctx_pid, &spid, cls, &mut out);
         }
     }
     // 4. client helpers (always under HProg::ID)
